@@ -5,5 +5,6 @@ QLoX  == {-3, 0, 2}
 QExtX == {1, 2, 4, 6}
 TLoX  == -4..4
 TExtX == 1..7
+PLoX == {-1, 0}
 AllRegimes == {<<1,1>>, <<0,0>>, <<1,0>>}
 =============================================================================
